@@ -204,6 +204,7 @@ def _str_eq_slow(a, b):
     # otherwise by C02.  Literal-vs-opaque-id: an opaque id never equals a literal.
     return False
 def term_eq(x, y):
+    x = deref_all(x); y = deref_all(y)                      # PartialEq on references compares the referents
     if isinstance(x, Agg) and isinstance(y, Agg):
         if x.variant != y.variant or len(x.fields) != len(y.fields): return False
         return b_and(*[term_eq(p, q) for p, q in zip(x.fields, y.fields)])
@@ -211,7 +212,9 @@ def term_eq(x, y):
     if isinstance(x, SeqM) and isinstance(y, SeqM):
         if len(x.items) != len(y.items): return False
         return b_and(*[term_eq(p, q) for p, q in zip(x.items, y.items)])
+    if isinstance(x, (Instant, Duration)) and type(x) is type(y): return v_eq(x.t, y.t)
     if isinstance(x, (Agg, Str, SeqM)) or isinstance(y, (Agg, Str, SeqM)): return False
+    if not ((is_conc(x) or is_z3(x) or isinstance(x, float)) and (is_conc(y) or is_z3(y) or isinstance(y, float))): raise Unsupported(f'equality of {type(x).__name__} and {type(y).__name__}')
     return v_eq(x, y)
 
 
